@@ -15,7 +15,7 @@ Extraction "model.ml"
   trojan_server_decode trojan_client_udp_decode trojan_client_head trojan_packet_encode trojan_key hex_encode
   s5_initial_request s5_command_request s5_initial_response s5_command_response s5_udp_decode s5_udp_encode
   recognize_http
-  request_parse recognize_step consume_head_step handshake
+  request_parse recognize_step consume_head_step handshake handshake_v0
   body_new encode_payload_v encode_packet_v decode_payload_v decode_packet_v resp_key resp_iv
   server_vdecode server_vencode client_vencode client_vdecode kdf16 auth_id_create seal_header open_header parse_header header_bytes fnv1a32
   q_cipher q_protocol q_mode q_kind q_object q_kdf q_b64 q_keys q_user q_path q_vmess
